@@ -466,6 +466,26 @@ Definition items_keys_exact (its : list aitem) : bool :=
 
 Definition code_keys_exact (C : code) : bool := items_keys_exact (items_of_code C).
 
+(* ------------------------------------------------------------------ constants of an expression that makeConstant can take *)
+(* Every constant the compiler makes up itself is hashable; only a ConstantNode (a folded ConstExpr
+   call or an optimizer product) can carry a value on which makeConstant panics. *)
+Fixpoint consts_hashable (e : expr) : bool :=
+  let fix all_h (es : list expr) : bool :=
+    match es with [] => true | x :: r => consts_hashable x && all_h r end in
+  match e with
+  | EConst _ v => match v with VNil => true | _ => const_ok (CVal v) end
+  | ENil _ | EIdent _ _ _ | EInt _ _ | EFloat _ _ | EBool _ _ | EStr _ _ | EPointer _ => true
+  | EUnary _ _ x | EProperty _ x _ _ | EClosure _ x => consts_hashable x
+  | EBinary _ _ l r | EIndex _ l r | EPair _ l r => consts_hashable l && consts_hashable r
+  | EMatches _ re l r => consts_hashable l && match re with Some _ => true | None => consts_hashable r end
+  | ESlice _ x f t =>
+      consts_hashable x && match f with Some y => consts_hashable y | None => true end
+      && match t with Some y => consts_hashable y | None => true end
+  | EMethod _ x _ args _ => consts_hashable x && all_h args
+  | EFunction _ _ args _ | EBuiltin _ _ args | EArray _ args | EMap _ args => all_h args
+  | ECond _ c x y => consts_hashable c && consts_hashable x && consts_hashable y
+  end.
+
 (* ------------------------------------------------------------------ example inputs (used in Props/C05.v) *)
 (* s matches "^a" ? f(1.5, 1, f(1.5, 2, 1)) : filter(1..3, {# > 1}) *)
 Definition c05_ex : expr :=
